@@ -26,38 +26,54 @@ def inForce (isFile : Bool) (outer : Word → Bool) (md : List Word) : Word → 
   if saysSomething md' then denotes md' else outer
 
 /-- kinds that belong to their parent's own description and carry no accessibility:
-    dummy arguments, final procedures -/
+    dummy arguments, the function result, final procedures -/
 def alwaysShown : Kind → Bool
-  | .arg | .finalproc => true
+  | .arg | .retvar | .finalproc => true
   | _ => false
+
+/-- a child of kind `ck` of a `pk` is part of the parent's own description: the kinds above, and the
+    interface bodies written inside a generic interface block (its specific procedures) -/
+def ownDescr (pk ck : Kind) : Bool := alwaysShown ck || (pk == .generic && isProc ck)
+
+/-- kinds that have no accessibility of their own, so that `display` cannot deselect them
+    (`hide_undoc` and `proc_internals` can): a common block -/
+def noAccess : Kind → Bool
+  | .common => true
+  | _ => false
+
+/-- a procedure standing in a `pk` has no page of its own (an internal procedure, an interface body in a
+    generic interface block): its description is its doc, its dummy arguments and its result -/
+def summarised (pk : Kind) : Bool := isProc pk || pk == .generic
 
 /-- a procedure whose internals are switched off (`proc_internals`, own metadata first) -/
 def procOff (cfg : Cfg) (i : Info) : Bool :=
   isProc i.kind && !(i.pint.getD cfg.procInternals)
 
+/-- a child `c` of a selected `pk` is selected iff it belongs to the parent's own description, or the
+    parent is not a procedure with internals off, its permission (if its kind has one) is in the
+    display set in force and - under `hide_undoc` - it is documented -/
+def selects (cfg : Cfg) (pk : Kind) (off : Bool) (D : Word → Bool) (c : Info) : Bool :=
+  ownDescr pk c.kind || (!off && (noAccess c.kind || D c.perm) && (!cfg.hideUndoc || c.doc))
+
 mutual
 /-- ids selected at and below a *selected* entity; `D` is the display set in force below it,
-    `pproc`: its parent is a procedure (then a procedure has no page of its own and its
-    description consists of its doc and dummy arguments) -/
-def sel (cfg : Cfg) (pproc : Bool) (D : Word → Bool) : Ent → List Nat
+    `pk` the kind of its parent (a procedure in a procedure or in a generic interface block has no
+    page of its own and its description consists of its doc, dummy arguments and result) -/
+def sel (cfg : Cfg) (pk : Kind) (D : Word → Bool) : Ent → List Nat
   | .mk i cs => i.id ::
-      (if isProc i.kind && pproc then cs.argIds
-       else selKids cfg (isProc i.kind) (procOff cfg i) D cs)
-/-- a child is selected iff it belongs to the parent's own description, or the parent is not a
-    procedure with internals off, its permission is in the display set in force and - under
-    `hide_undoc` - it is documented -/
-def selKids (cfg : Cfg) (pproc off : Bool) (D : Word → Bool) : Ents → List Nat
+      (if isProc i.kind && summarised pk then cs.argIds
+       else selKids cfg i.kind (procOff cfg i) D cs)
+def selKids (cfg : Cfg) (pk : Kind) (off : Bool) (D : Word → Bool) : Ents → List Nat
   | .nil => []
   | .cons c rest =>
-    (if alwaysShown c.info.kind || (!off && D c.info.perm && (!cfg.hideUndoc || c.info.doc))
-     then sel cfg pproc (inForce false D c.info.disp) c else [])
-    ++ selKids cfg pproc off D rest
+    (if selects cfg pk off D c.info then sel cfg pk (inForce false D c.info.disp) c else [])
+    ++ selKids cfg pk off D rest
 end
 
 /-- program units of a file are always selected -/
 def selUnits (cfg : Cfg) (D : Word → Bool) : Ents → List Nat
   | .nil => []
-  | .cons u rest => sel cfg false (inForce false D u.info.disp) u ++ selUnits cfg D rest
+  | .cons u rest => sel cfg .file (inForce false D u.info.disp) u ++ selUnits cfg D rest
 
 def selFile (cfg : Cfg) : Ent → List Nat
   | .mk i cs => i.id :: selUnits cfg (inForce true (denotes cfg.display) i.disp) cs
@@ -82,12 +98,49 @@ def pageKidsSpec : Ents → List Nat
   | .nil => []
   | .cons e rest => (if pageKind e.info.kind then [e.info.id] else []) ++ pageKidsSpec rest
 
-/-- children of a module / program that are selected and of a page kind -/
+/-- children of a module / program / block data unit that are selected and of a page kind -/
 def selPageKids (cfg : Cfg) (D : Word → Bool) : Ents → List Nat
   | .nil => []
   | .cons c rest =>
     (if pageKind c.info.kind && (D c.info.perm && (!cfg.hideUndoc || c.info.doc)) then [c.info.id] else [])
     ++ selPageKids cfg D rest
+
+/-! ### namelist pages: a namelist has a page of its own when it stands in a program or in a procedure
+that has a page (module-level namelists are listed on the module's page) -/
+
+/-- selected namelists among the children of a selected `pk` -/
+def selNmlKids (cfg : Cfg) (pk : Kind) (off : Bool) (D : Word → Bool) : Ents → List Nat
+  | .nil => []
+  | .cons c rest =>
+    (if c.info.kind == .namelist && selects cfg pk off D c.info then [c.info.id] else [])
+    ++ selNmlKids cfg pk off D rest
+
+/-- selected namelists of the selected procedures among the children of a unit `pk` -/
+def selRoutineNmls (cfg : Cfg) (pk : Kind) (D : Word → Bool) : Ents → List Nat
+  | .nil => []
+  | .cons c rest =>
+    (if isProc c.info.kind && selects cfg pk false D c.info
+     then selNmlKids cfg c.info.kind (procOff cfg c.info) (inForce false D c.info.disp) c.kids else [])
+    ++ selRoutineNmls cfg pk D rest
+
+def selUnitNmls (cfg : Cfg) (D : Word → Bool) : Ents → List Nat
+  | .nil => []
+  | .cons u rest =>
+    (let Du := inForce false D u.info.disp
+     if isProc u.info.kind then selNmlKids cfg u.info.kind (procOff cfg u.info) Du u.kids
+     else if u.info.kind == .program then
+       selNmlKids cfg .program false Du u.kids ++ selRoutineNmls cfg .program Du u.kids
+     else if u.info.kind == .module || u.info.kind == .submodule then selRoutineNmls cfg u.info.kind Du u.kids
+     else [])
+    ++ selUnitNmls cfg D rest
+
+def selFileNmls (cfg : Cfg) : Ent → List Nat
+  | .mk i cs => selUnitNmls cfg (inForce true (denotes cfg.display) i.disp) cs
+
+/-- the selected namelists that have a page of their own -/
+def selNmlPages (cfg : Cfg) : List Ent → List Nat
+  | [] => []
+  | f :: fs => selFileNmls cfg f ++ selNmlPages cfg fs
 
 /-- every program unit has a page; modules and programs also give pages to their selected
     procedures, interfaces and types -/
@@ -108,19 +161,24 @@ def selPages (cfg : Cfg) : List Ent → List Nat
 
 def kidOk (pk ck : Kind) : Bool :=
   match pk with
-  | .file => ck == .module || ck == .submodule || ck == .program || ck == .subroutine || ck == .function
+  | .file =>
+    ck == .module || ck == .submodule || ck == .program || ck == .subroutine || ck == .function
+      || ck == .blockdata
   | .submodule =>
     ck == .variable || ck == .type || ck == .subroutine || ck == .function || ck == .modproc || ck == .generic
-      || ck == .iface || ck == .absint || ck == .enum
+      || ck == .iface || ck == .absint || ck == .enum || ck == .namelist || ck == .common
   | .module | .program =>
     ck == .variable || ck == .type || ck == .subroutine || ck == .function || ck == .generic
-      || ck == .iface || ck == .absint || ck == .enum
+      || ck == .iface || ck == .absint || ck == .enum || ck == .namelist || ck == .common
   | .subroutine | .function | .modproc =>
-    ck == .arg || ck == .variable || ck == .type || ck == .subroutine || ck == .function
-      || ck == .iface || ck == .absint || ck == .enum
+    ck == .arg || ck == .retvar || ck == .variable || ck == .type || ck == .subroutine || ck == .function
+      || ck == .iface || ck == .absint || ck == .enum || ck == .namelist || ck == .common
+  | .blockdata => ck == .variable || ck == .type || ck == .common
   | .type => ck == .variable || ck == .boundproc || ck == .finalproc
-  | .generic | .iface | .absint => ck == .arg
+  | .generic => ck == .arg || ck == .subroutine || ck == .function
+  | .iface | .absint => ck == .arg
   | .enum => ck == .variable
+  | .common => ck == .variable
   | _ => false
 
 mutual
@@ -130,6 +188,63 @@ def wfKids (pk : Kind) : Ents → Bool
   | .nil => true
   | .cons e rest => kidOk pk e.info.kind && wf e && wfKids pk rest
 end
+
+/-! ### the positions no `prune()` reaches (known findings)
+
+Enumerations, namelists and common blocks are kept in lists that no `prune()` filters or empties, and
+so are the enumerators of an enumeration and the member variables of a common block; a namelist of a
+module or submodule is described by no page template.  `outsideFindings` says that a project meets none
+of these: every such entity that stands in a selected position is itself selected, and no namelist of a
+module / submodule is.  (A project without enumerations, namelists and common blocks satisfies it
+trivially: `noGapKinds`.) -/
+
+def gapKind : Kind → Bool
+  | .enum | .namelist | .common => true
+  | _ => false
+
+/-- a child of kind `ck` of a `pk` is in a list that no `prune()` filters although it carries docs -/
+def unfiltered (pk ck : Kind) : Bool := gapKind ck || pk == .enum || pk == .common
+
+/-- the pages that describe the namelists of an entity: procedure pages and program pages -/
+def namelistDescribed (pk : Kind) : Bool := isProc pk || pk == .program
+
+mutual
+def outside (cfg : Cfg) (pk : Kind) (D : Word → Bool) : Ent → Bool
+  | .mk i cs =>
+    if isProc i.kind && summarised pk then true else outsideKids cfg i.kind (procOff cfg i) D cs
+def outsideKids (cfg : Cfg) (pk : Kind) (off : Bool) (D : Word → Bool) : Ents → Bool
+  | .nil => true
+  | .cons c rest =>
+    (if unfiltered pk c.info.kind
+     then selects cfg pk off D c.info == (c.info.kind != .namelist || namelistDescribed pk) else true)
+    && (if selects cfg pk off D c.info then outside cfg pk (inForce false D c.info.disp) c else true)
+    && outsideKids cfg pk off D rest
+end
+
+def outsideUnits (cfg : Cfg) (D : Word → Bool) : Ents → Bool
+  | .nil => true
+  | .cons u rest => outside cfg .file (inForce false D u.info.disp) u && outsideUnits cfg D rest
+
+def outsideFile (cfg : Cfg) : Ent → Bool
+  | .mk i cs => outsideUnits cfg (inForce true (denotes cfg.display) i.disp) cs
+
+/-- the project meets none of the never-filtered positions with an unselected entity -/
+def outsideFindings (cfg : Cfg) : List Ent → Bool
+  | [] => true
+  | f :: fs => outsideFile cfg f && outsideFindings cfg fs
+
+mutual
+/-- no enumeration, namelist or common block anywhere -/
+def noGap : Ent → Bool
+  | .mk i cs => !gapKind i.kind && noGapKids cs
+def noGapKids : Ents → Bool
+  | .nil => true
+  | .cons e rest => noGap e && noGapKids rest
+end
+
+def noGapKinds : List Ent → Bool
+  | [] => true
+  | f :: fs => noGap f && noGapKinds fs
 
 mutual
 /-- no enumeration anywhere -/
@@ -142,7 +257,7 @@ end
 
 /-- a well-formed source file -/
 def wfFile : Ent → Bool
-  | .mk i cs => i.kind == .file && wfKids .file cs && noEnumKids cs
+  | .mk i cs => i.kind == .file && wfKids .file cs
 
 def wfProject : List Ent → Bool
   | [] => true
@@ -176,5 +291,76 @@ def wEnum : List Ent :=
       (.cons (.mk { id := 3, kind := .enum, perm := .priv, doc := true, disp := [], pint := none, refs := [], visible := false }
         (.cons (.mk { id := 4, kind := .variable, perm := .priv, doc := true, disp := [], pint := none, refs := [], visible := false } .nil) .nil))
        .nil)) .nil)]
+
+private def wi (id : Nat) (k : Kind) (p : Word) (refs : List Nat := []) (ext : Option Nat := none)
+    (disp : List Word := []) : Info :=
+  { id := id, kind := k, perm := p, doc := true, disp := disp, pint := none, refs := refs, visible := false, ext := ext }
+
+/-- module (default private) with the public subroutine 3: local variable 4 and `namelist /nl5/ v4`
+    (both private, like everything declared in a procedure of that module) -/
+def wNamelist : List Ent :=
+  [.mk (wi 1 .file .pub)
+    (.cons (.mk (wi 2 .module .pub)
+      (.cons (.mk (wi 3 .subroutine .pub)
+        (.cons (.mk (wi 4 .variable .priv) .nil)
+        (.cons (.mk (wi 5 .namelist .priv [4]) .nil) .nil))) .nil)) .nil)]
+
+/-- module with the public variable 3 and the public `namelist /nl4/ v3` -/
+def wModuleNamelist : List Ent :=
+  [.mk (wi 1 .file .pub)
+    (.cons (.mk (wi 2 .module .pub)
+      (.cons (.mk (wi 3 .variable .pub) .nil)
+      (.cons (.mk (wi 4 .namelist .pub [3]) .nil) .nil))) .nil)]
+
+/-- module (default private) with `common /cb3/ v4`, `v4` private -/
+def wCommon : List Ent :=
+  [.mk (wi 1 .file .pub)
+    (.cons (.mk (wi 2 .module .pub)
+      (.cons (.mk (wi 3 .common .pub) (.cons (.mk (wi 4 .variable .priv) .nil) .nil)) .nil)) .nil)]
+
+/-- module (default private) with the private type 3 (public binding 4 of the subroutine 7) and the
+    public type 5 that extends 3 (component 6) -/
+def wInheritedBinding : List Ent :=
+  [.mk (wi 1 .file .pub)
+    (.cons (.mk (wi 2 .module .pub)
+      (.cons (.mk (wi 3 .type .priv) (.cons (.mk (wi 4 .boundproc .pub [7]) .nil) .nil))
+      (.cons (.mk (wi 5 .type .pub [] (some 3)) (.cons (.mk (wi 6 .variable .pub) .nil) .nil))
+      (.cons (.mk (wi 7 .subroutine .priv) (.cons (.mk (wi 8 .arg .pub) .nil) .nil)) .nil)))) .nil)]
+
+/-- block data unit 2 with the private type 3 (component 4) and the public type 5 that extends it -/
+def wBlockDataExtends : List Ent :=
+  [.mk (wi 1 .file .pub)
+    (.cons (.mk (wi 2 .blockdata .pub)
+      (.cons (.mk (wi 3 .type .priv) (.cons (.mk (wi 4 .variable .pub) .nil) .nil))
+      (.cons (.mk (wi 5 .type .pub [] (some 3)) .nil) .nil))) .nil)]
+
+/-- `display: public`, internals of procedures shown -/
+def wCfgInt : Cfg := { display := [.pub], procInternals := true, hideUndoc := false, fileInherits := true }
+
+/-- a project with the kinds of round 3 that meets none of the known-finding positions: module 2 with the
+    type 3 (public component 4, private component 5, binding 6 of the function 14), the type 7 that extends 3
+    (own component 8), the generic interface 9 with the interface body 10 (dummy argument 11, result 12) and the
+    module procedure 14 (dummy argument 15, declared result 16); the program 17 with variable 18 and
+    `namelist /nl19/ v18`; the block data unit 20 with variable 21 (public), variable 22 (private) and type 23
+    (component 24) -/
+def wRound3 : List Ent :=
+  [.mk (wi 1 .file .pub)
+    (.cons (.mk (wi 2 .module .pub)
+      (.cons (.mk (wi 3 .type .pub)
+        (.cons (.mk (wi 4 .variable .pub) .nil)
+        (.cons (.mk (wi 5 .variable .priv) .nil)
+        (.cons (.mk (wi 6 .boundproc .pub [14]) .nil) .nil))))
+      (.cons (.mk (wi 7 .type .pub [] (some 3)) (.cons (.mk (wi 8 .variable .pub) .nil) .nil))
+      (.cons (.mk (wi 9 .generic .pub [14])
+        (.cons (.mk (wi 10 .function .pub)
+          (.cons (.mk (wi 11 .arg .pub) .nil) (.cons (.mk (wi 12 .retvar .pub) .nil) .nil))) .nil))
+      (.cons (.mk (wi 14 .function .priv)
+        (.cons (.mk (wi 15 .arg .pub) .nil) (.cons (.mk (wi 16 .retvar .pub) .nil) .nil))) .nil)))))
+    (.cons (.mk (wi 17 .program .pub)
+      (.cons (.mk (wi 18 .variable .pub) .nil) (.cons (.mk (wi 19 .namelist .pub [18]) .nil) .nil)))
+    (.cons (.mk (wi 20 .blockdata .pub)
+      (.cons (.mk (wi 21 .variable .pub) .nil)
+      (.cons (.mk (wi 22 .variable .priv) .nil)
+      (.cons (.mk (wi 23 .type .pub) (.cons (.mk (wi 24 .variable .pub) .nil) .nil)) .nil)))) .nil)))]
 
 end Ford.Display.Spec
